@@ -100,6 +100,94 @@ namespace pf
         o.text.assign((const char *)cap.buf, cap.n < CAPN ? cap.n : CAPN);
         return o;
     }
+    // ---- re-entrant callback
+    inline int call_printf_cb(void (*cb)(void *, int), void *data, const char *fmt, ...)
+    {
+        va_list ap;
+        va_start(ap, fmt);
+        int r = __printf(cb, data, fmt, ap);
+        va_end(ap);
+        return r;
+    }
+    struct SmallCap
+    {
+        char b[256];
+        size_t n;
+    };
+    inline void small_cb(void *d, int c)
+    {
+        SmallCap *k = (SmallCap *)d;
+        if (k->n < sizeof k->b)
+            k->b[k->n] = (char)c;
+        k->n++;
+    }
+    // the nested formats: integers in every base with flags, strings/chars/pointer-free text, floats
+    template <class F> inline int nested_format(int kind, F &&call)
+    {
+        switch (kind)
+        {
+        case 0:
+            return call("%d", 98760);
+        case 1:
+            return call("%llx|%s|%-6o|%c|%+.7ld", 0xfedcba9876543210ull, "nested", 0777u, 'n', -4242424242L);
+        case 2:
+            return call("%.3f|%e|%g|%G", 2718.281828, -6.02214076e23, 0.000123456, 1e-10);
+        default:
+            return call("%#x %020.12f %u", 0xabcdefu, -1234567.890123, 4000000000u);
+        }
+    }
+    struct NestState
+    {
+        Cap *cap;
+        int period, kind, depth;
+        size_t nested_calls;
+        std::string bad;
+    };
+    inline void nest_cb(void *d, int c)
+    {
+        NestState *st = (NestState *)d;
+        cap_cb(st->cap, c);
+        if (st->depth || st->cap->n % (size_t)st->period)
+            return;
+        st->depth = 1;
+        SmallCap in;
+        in.n = 0;
+        int r = nested_format(st->kind, [&](const char *f, auto... a) { return call_printf_cb(small_cb, &in, f, a...); });
+        st->nested_calls++;
+        static std::string want[NEST_KINDS];
+        if (want[st->kind].empty())
+        {
+            char b[256];
+            int n = nested_format(st->kind, [&](const char *f, auto... a) { return call_ref(b, sizeof b, f, a...); });
+            want[st->kind].assign(b, n < 0 ? 0 : (size_t)n);
+        }
+        if (st->bad.empty() && (r < 0 || (size_t)r != in.n || in.n > sizeof in.b || std::string(in.b, in.n) != want[st->kind]))
+            st->bad = mc::fmt("nested call #%zu (after outer character %zu) returned %d and emitted %s, expected %s", st->nested_calls,
+                              st->cap->n, r, vis(std::string(in.b, in.n < sizeof in.b ? in.n : sizeof in.b)).c_str(), vis(want[st->kind]).c_str());
+        st->depth = 0;
+    }
+    struct NestCall
+    {
+        NestState *st;
+        const char *fmt;
+        template <class... A> int operator()(A... a) { return call_printf_cb(nest_cb, st, fmt, a...); }
+    };
+    Out run_impl_nested(const std::string &fmt, const Args &a, int period, int kind, size_t *nested_calls, std::string *nested_bad)
+    {
+        static Cap cap;
+        cap.n = 0;
+        NestState st{&cap, period < 1 ? 1 : period, kind, 0, 0, ""};
+        NestCall c{&st, fmt.c_str()};
+        Out o;
+        o.ret = dispatch(c, a);
+        o.emitted = cap.n;
+        o.text.assign((const char *)cap.buf, cap.n < CAPN ? cap.n : CAPN);
+        if (nested_calls)
+            *nested_calls = st.nested_calls;
+        if (nested_bad)
+            *nested_bad = st.bad;
+        return o;
+    }
     Out run_ref(const std::string &fmt, const Args &a)
     {
         static char buf[CAPN + 1];
